@@ -159,3 +159,16 @@ def queues(ctx, eng):
             leaks = [o for o in an.outcomes if o[1]]
             ctx.ob("R18.6", f"{k}|no-resource-left", not leaks, "", "no ring reservation / lock survives the call" if not leaks else f"returns holding {sorted(leaks[0][1])}")
     ctx.floor("R18.5", 4)
+
+
+# ---------------------------------------------------------------------------------------------- R18.7 (added after seed C18-s2)
+_check_c18 = check
+def check(ctx):
+    _check_c18(ctx)
+    # the two non-blocking queues are thin wrappers (checked above); what makes their concurrent behaviour that of a queue are the shape conditions of the
+    # rings underneath: counter protocol shapes, exact fullness / emptiness guards (signed view of the wrapping distance), index agreement, complete
+    # full-sync critical sections -- shared with C02
+    import importlib, util
+    C02 = importlib.import_module("props.C02")
+    C02.check(util.PrefixedCtx(ctx, "R18.7"))
+    ctx.floor("R18.7", 30)
